@@ -233,7 +233,10 @@ func TestC07(t *testing.T) {
 			var conns []net.Conn
 			var targets []string
 			for i, kind := range kinds {
-				tg := fmt.Sprintf("/c07/%d/t%d", n, i)
+				// WebSocket upgrades go to the hold cluster (30 s response header timeout: the held
+				// backend answer must not be abandoned and retried); stream connections carry no
+				// path and land on the default cluster c
+				tg := fmt.Sprintf("/c07h/%d/t%d", n, i)
 				targets = append(targets, tg)
 				w.setScript(tg, &respScript{Fault: "hold"})
 				var c net.Conn
@@ -274,13 +277,20 @@ func TestC07(t *testing.T) {
 				in := 0
 				heldAt = map[int]int{}
 				for _, tg := range targets {
+					open := 0
 					for _, sr := range w.seenFor(tg) {
-						in++
+						if sr.Conn.EOF() {
+							continue // an attempt BFE has given up on
+						}
+						open++
 						for i, b := range w.backends {
 							if b.Name == sr.Backend {
 								heldAt[ports[i]]++
 							}
 						}
+					}
+					if open == 1 {
+						in++
 					}
 				}
 				if in >= k {
@@ -293,7 +303,15 @@ func TestC07(t *testing.T) {
 				}
 				time.Sleep(time.Millisecond)
 			}
-			balCnt, balDetail := balancerCounts(w, "c")
+			tunnelCounts := func() (map[int]int, string) {
+				a, ad := balancerCounts(w, "c")
+				b, bd := balancerCounts(w, "chold")
+				for p, v := range b {
+					a[p] += v
+				}
+				return a, ad + " | " + bd
+			}
+			balCnt, balDetail := tunnelCounts()
 			wit := map[string]any{"mode": "tunnel", "kinds": kinds, "held_at_port": fmt.Sprint(heldAt), "balancer_conn_nums_while_open": balDetail}
 			closeAll()
 			for _, port := range ports[:3] {
@@ -305,7 +323,7 @@ func TestC07(t *testing.T) {
 			}
 			deadline = time.Now().Add(8 * time.Second)
 			for {
-				balCnt, balDetail = balancerCounts(w, "c")
+				balCnt, balDetail = tunnelCounts()
 				bad := false
 				for _, v := range balCnt {
 					bad = bad || v != 0
